@@ -164,7 +164,14 @@ package metrics
 //@   at_call Checker.FailedMetric assert [decision-about-that-peer-and-name] arg_metric == metric.Name && pid == metric.Peer
 //@   modifies heap(Checker), heap(Store), lastFailedDecision, lastFailedPeer, lastFailedName
 
-// the periodic loop itself (ticker, context): not verified
+// the periodic loop: it goes on checking until its context is cancelled - a failed peerset lookup skips one round, it
+// does not end the checking ("a peer whose latest metric expired without renewal is reported")
+//@ fnvalue Checker.Watch.peersF(ctx)
+//@   modifies nothing
 //@ func (mc *Checker) Watch
-//@   opts trusted
+//@   property C09
+//@   requires !ctxdone(ctx)
+//@   ensures [stops-only-when-cancelled] ctxdone(ctx)
+//@   loop 1 (for)
+//@     invariant !ctxdone(ctx)
 //@   modifies *
